@@ -14,6 +14,19 @@ def prove_targets(db, targets, lemmas=(), timeout_ms=20000, verbose=False):
     for cc in targets:
         if cc.opts.get("abstract"):
             continue
+        if cc.kind == "tables":
+            try:
+                o, rec = verify.verify_tables(db, cc)
+                heaps[id(o[0].inputs) if o else 0] = {}
+                for ob in o:
+                    heaps[id(ob.inputs)] = {}
+                obs += o
+                rec["contract"] = cc.target
+                rec["obligations"] = len(o)
+                funcs.append(rec)
+            except Exception as e:
+                undecided.append({"function": cc.target, "contract": cc.target, "reason": "engine error: %r" % e})
+            continue
         variants = [(cc, cc.target, None)]
         impl = cc.opts.get("implements")
         if impl and impl in db.contracts:
